@@ -156,7 +156,8 @@ class SeqCheck:
 
 SEQ_TEXT = ('Theorems (Coq, all lengths / states / histories): the Model refines the Spec (step_refines, run_refines, init_refines) and the '
             'property statements in Props/%s.v follow; tie: differential run of the extracted Model against the real crate on generated histories, '
-            'oracle: the Spec run over the same histories.')
+            'oracle: the Spec run over the same histories. K-tie / D-tie: the arithmetic kernels and (C01 C05 C06) the 36 data-touching functions are translated from '
+            'the Rust source on every run and proved equal to the Model functions for all inputs (Props/KTie.v, Props/DTie.v).')
 
 CHECKS = {}
 for pid, pred in (('C01', is_c01), ('C04', is_c04), ('C05', is_c05), ('C06', is_c06), ('C11', is_c11), ('C12', is_c12), ('C18', is_c18)):
@@ -405,7 +406,9 @@ class LedgerCheck(SeqCheck):
 LEDGER_TEXT = ('Theorems (Coq): conservation of owned values for every operation of every contract-respecting history (conservation, history_conservation, '
                'released_balance), *_init stores never drop an empty cell nor lose an occupied one, release skips empty cells and drops each occupied one once, '
                'the state after a push does not depend on the store mode. Tie: owned-item histories with a recording Drop/Clone item in three layouts, ledger events compared '
-               'per step, live objects compared at the end of each history; refinement Model ~ Spec as for C01.')
+               'per step, live objects compared at the end of each history; refinement Model ~ Spec as for C01. D-tie: the ledger events of every store / take / duplicate / '
+               'clone in the data-touching functions translated from the source on every run equal the Model\'s (Props/DTie.v; the check_zeroed branches of the *_init '
+               'closures are proved equal to the single mode SInit).')
 def c09_zst(ctx, seqrun, stats, divs):
     """zero-sized item types (outside the Model, which keeps a value per cell): exact drop ledger on rule-following histories"""
     bindir, log = ctx.build_harness(('zstprobe',))
